@@ -44,7 +44,7 @@ Inductive case :=
 | CDial (allow : bool) (proxies : list (list N * list N)) (addr ahost : list N)
         (split : option (host * list N)) (ans : option (list ip)) (obs_proxy : bool) (obs : dobs)
 | CRedirect (allow : bool) (first : purl) (chain : list hop) (sent : N)
-| CEndToEnd (allow : bool) (u : option purl) (ans : option (list ip)) (hits : N).
+| CEndToEnd (allow : bool) (u : option purl) (ans_check ans_dial ans_later : option (list ip)) (hits : N).
 
 (* --- independent classification: decode the bytes to a number, use the CIDR spec --- *)
 Definition decode (x : ip) : option addr :=
@@ -83,12 +83,15 @@ Fixpoint count_connects (l : list event) : N :=
 Definition redirect_sent (allow : bool) (first : purl) (chain : list hop) : N :=
   count_connects (fst (client_do 40 (chain_world allow first chain) 1%nat 0%nat first)).
 
-(* --- end to end: one request, no redirects, the local server is reachable --- *)
-Definition e2e_world (allow : bool) (ans : option (list ip)) : world :=
-  mk_world allow (fun _ _ => ans) (fun _ => true) (fun _ => None) (fun _ _ => None).
+(* --- end to end: one request, no redirects.  The resolver answers [ans_check]
+   to the handler's URL check and [ans_dial] afterwards (rebinding); in the
+   sandbox only this host's loopback addresses accept connections. --- *)
+Definition e2e_world (allow : bool) (ans_check ans_dial : option (list ip)) : world :=
+  mk_world allow (fun k _ => match k with O => ans_check | _ => ans_dial end)
+           is_loopback (fun _ => None) (fun _ _ => None).
 
-Definition e2e_hits (allow : bool) (u : option purl) (ans : option (list ip)) : N :=
-  count_connects (fst (handle 5 (e2e_world allow ans) u)).
+Definition e2e_hits (allow : bool) (u : option purl) (ans_check ans_dial : option (list ip)) : N :=
+  match snd (handle 5 (e2e_world allow ans_check ans_dial) u) with SDone => 1 | _ => 0 end.
 
 (** model output = implementation output *)
 Definition check_case (c : case) : bool :=
@@ -100,7 +103,7 @@ Definition check_case (c : case) : bool :=
       Bool.eqb isp obs_proxy &&
       dobs_eqb (project_dial (guarded_dial allow isp split ans (fun _ => false)) ans) obs
   | CRedirect allow first chain sent => redirect_sent allow first chain =? sent
-  | CEndToEnd allow u ans hits => e2e_hits allow u ans =? hits
+  | CEndToEnd allow u a0 a1 _ hits => e2e_hits allow u a0 a1 =? hits
   end.
 
 (** the property on the implementation's observed behaviour, classifying the
@@ -126,6 +129,8 @@ Definition holds_on (c : case) : bool :=
       then match obs with OAttempt => false | _ => true end else true
   | CRedirect allow first chain sent =>
       if allow then true else sent <=? 1 + allowed_prefix chain
-  | CEndToEnd allow u ans hits =>
-      if negb allow && any_internal ans then hits =? 0 else true
+  | CEndToEnd allow u a0 a1 a2 hits =>
+      (* whichever look-up (check time, dial time, or one more at dial time) shows an internal
+         address, nothing is reached *)
+      if negb allow && (any_internal a0 || any_internal a1 || any_internal a2) then hits =? 0 else true
   end.
